@@ -233,6 +233,8 @@ fn arb_merge_value(depth: u32) -> BoxedStrategy<Node> {
             Node::seq(true, items)
         }),
         1 => prop::sample::select(vec!["~", "null", "Null", "NULL"]).prop_map(s),
+        // (a scalar tagged `!!null` is null whatever its text)
+        1 => prop::sample::select(vec!["x", "0", "~"]).prop_map(|t| s(t).tagged("!!null")),
     ]
     .boxed()
 }
@@ -474,6 +476,10 @@ impl Property for C03 {
             Just(Node::scalar("", Style::Double)),
             Just(Node::scalar("~", Style::Double)),
             Just(Node::scalar("null", Style::Single)),
+            // a null-like text under a tag that makes it a value (a string, a binary payload)
+            Just(Node::plain("null").tagged("!!str")),
+            Just(Node::plain("~").tagged("!!str")),
+            Just(Node::plain("null").tagged("!!binary")),
             (arb_source(0), prop::sample::select(vec!["x", "7"])).prop_map(|(m, x)| Node::seq(true, vec![m, s(x)])),
             prop::sample::select(vec!["x", "7"]).prop_map(|x| Node::seq(true, vec![Node::seq(true, vec![s(x)])])),
         ];
